@@ -59,17 +59,36 @@ FileSets(z) == {{a, b} : a, b \in Kinds(0)} \cup {Twice(k) : k \in Kinds(0)}
             \cup (IF Big THEN {Twice(a) \cup {b} : a, b \in Kinds(0)} \cup {{a, b, c} : a, b, c \in Kinds(0)} ELSE {})
 SumsVecs(z) == {V("sums", SumsCfg, fs, D \div 2) : fs \in {fs \in FileSets(0) : \E f \in fs : f.counts # {}}}
 
+(* C11: reports as the upload server sees them: approved ones and ones that   *)
+(* differ from an approved one in a single field                              *)
+SrvCfg == BuildsCfg(0)
+CSets == {{}, {"c"}, {"c:a"}, {"d"}, {"c", "d"}, {"c:{a,b}"}, {"c:ab"}, {"c:"}, {"cc:a"}, {"s"}, {"c:b", "c:a"}, {"s\nf1\nf2"}, {"C:a"}}
+SSets == {{}, {"s\nf1\nf2"}, {"s2\nf1"}, {"s \nf1"}, {"c\nf1"}, {"s\n"}, {"s"}, {"s\ng1", "s\nf1\nf2"}}
+Entry(b, cs, ss) == [build |-> b, counters |-> cs, stacks |-> ss]
+Entries(z) ==
+    LET bs == IF Big THEN Builds(0) ELSE NearBuilds(0) IN
+    {Entry(b, cs, {}) : b \in bs, cs \in CSets} \cup {Entry(b, {}, ss) : b \in bs, ss \in SSets}
+    \cup {Entry(b, cs, ss) : b \in {B0, B2}, cs \in CSets, ss \in SSets}
+BaseEntries == {Entry(B0, {"c", "c:b"}, {"s\nf1\nf2"}), Entry(B2, {"d"}, {})}
+ServerVecs(z) == {[fam |-> "server", cfg |-> SrvCfg, rep |-> {e} \cup more] : e \in Entries(0), more \in {{}} \cup {{b} : b \in BaseEntries}}
+
 VecSet == CASE Family = "names"  -> NamesVecs(0)
             [] Family = "rates"  -> RatesVecs(0)
             [] Family = "shared" -> SharedVecs(0)
             [] Family = "builds" -> BuildsVecs(0)
             [] Family = "sums"   -> SumsVecs(0)
+            [] Family = "server" -> ServerVecs(0)
+            [] Family = "c11"    -> NamesVecs(0) \cup BuildsVecs(0) \cup ServerVecs(0)
             [] Family = "c01"    -> NamesVecs(0) \cup RatesVecs(0) \cup SharedVecs(0) \cup BuildsVecs(0) \cup SumsVecs(0)
-Vecs == {v \in VecSet : InDomain(v)}
+IsSrv(v) == v.fam = "server"
+Vecs == {v \in VecSet : IF IsSrv(v) THEN ConfigOK(CCfg(v.cfg), D) ELSE InDomain(v)}
 
 (* ---- expected outputs -------------------------------------------------------------*)
 Weeks(v) == {f.week : f \in v.files}
+CRep(rep) == {[build |-> e.build, counters |-> {NameOf[n] : n \in e.counters}, stacks |-> {NameOf[n] : n \in e.stacks}] : e \in rep}
+SrvOut(v) == [fam |-> v.fam, cfg |-> v.cfg, rep |-> v.rep, d |-> D, accept |-> ServerAccepts(CCfg(v.cfg), CRep(v.rep))]
 Out(v) ==
+    IF IsSrv(v) THEN SrvOut(v) ELSE
     LET cfg == CCfg(v.cfg)  files == CFiles(v.files) IN
     [fam |-> v.fam, cfg |-> v.cfg, files |-> v.files, x |-> v.x, d |-> D,
      sampled |-> Sampled(cfg, v.x),
@@ -118,8 +137,22 @@ Thm(cfg, files, w, x) ==
     /\ \A f \in WeekFiles(files, w) :
           LET xn == ViewerExcludedNames(cfg, f)  sx == ViewerSetExcluded(cfg, f.build) IN
           \A c \in f.counts : (sx \/ c.n \in xn) <=> ~(\E t \in z5 : t.b = f.build /\ t.n = c.n)
-Theorems == IsVec => LET cfg == CCfg(vec.cfg)  files == CFiles(vec.files) IN \A w \in Weeks(vec) : Thm(cfg, files, w, vec.x)
+Theorems == (IsVec /\ ~IsSrv(vec)) => LET cfg == CCfg(vec.cfg)  files == CFiles(vec.files) IN \A w \in Weeks(vec) : Thm(cfg, files, w, vec.x)
 (* expansions are plain names carrying the chart prefix *)
+(* C11: an accepted report stops being accepted when a single field of one of   *)
+(* its entries is replaced by (or a name is added that is) something the        *)
+(* configuration does not list; a rejected report has such an entry             *)
+SrvAltBuilds(b) == {[b EXCEPT !.program = p] : p \in Programs} \cup {[b EXCEPT !.version = x] : x \in Versions}
+                   \cup {[b EXCEPT !.gover = g] : g \in GoVers} \cup {[b EXCEPT !.goos = o] : o \in {"linux", "plan9"}}
+                   \cup {[b EXCEPT !.goarch = a] : a \in {"amd64", "386"}}
+ServerTheorems == (IsVec /\ IsSrv(vec)) => LET cfg == CCfg(vec.cfg)  rep == CRep(vec.rep) IN
+    IF ServerAccepts(cfg, rep)
+    THEN \A e \in rep :
+           /\ \A b \in SrvAltBuilds(e.build) : ~Approved5(cfg, b) => ~ServerAccepts(cfg, (rep \ {e}) \cup {[e EXCEPT !.build = b]})
+           /\ \A n \in CounterToks \cup StackToks :
+                 /\ ~CounterListed(cfg, e.build.program, NameOf[n]) => ~ServerAccepts(cfg, (rep \ {e}) \cup {[e EXCEPT !.counters = @ \cup {NameOf[n]}]})
+                 /\ ~StackListed(cfg, e.build.program, NameOf[n]) => ~ServerAccepts(cfg, (rep \ {e}) \cup {[e EXCEPT !.stacks = @ \cup {NameOf[n]}]})
+    ELSE \E e \in rep : ~ServerAccepts(cfg, {e})
 ExpandSane == IsVec => LET cfg == CCfg(vec.cfg) IN
     \A p \in cfg.progs : \A c \in p.counters : \A n \in Expand(c.name) :
         /\ ~IsCollapsed(n) /\ ~IsStack(n)
